@@ -216,6 +216,24 @@ CLAIMED = {
         "read as: the tempo that comes back is 60000000 div (60000000 div bpm). Three defects repaired by fix: commits (7b30158 "
         "key signatures, c08e47e leading rest, c357aa9 file without tempo).",
    design="§4 C17"),
+ "C18": dict(
+   text="Sequencer modelled as a trace machine: hook events, observer registry, low- and high-level notifications; play_Bars "
+        "modelled statement by statement (float cursor, re-triggering, the remove-while-iterating stop loop) and bit-compared "
+        "with the implementation on ~15k scripts incl. every unequal-rhythm run. Lean, unbounded: emit_ext (a hook event reaches "
+        "every attached observer exactly once and nobody else); playBar_spec / playTrack_spec (for ANY bar/track - chords, "
+        "rests, tempo-changing containers - the trace is per entry the note-ons with pitch+12, own channel and velocity, one "
+        "sleep at the tempo in force, the matching note-offs; observers receive exactly that; the last tempo is returned); "
+        "entries_balanced (nothing left sounding, nothing stopped that was not started, no re-trigger), slept_entries (the "
+        "sleeps, entry by entry); playBars_sync / playTracks_spec / playComposition_spec (whatever the parallel scheduler does, "
+        "observers = hooks; one instrument announcement per track on its channel first, program = GM name index, else the "
+        "instrument's number, else 1); attach_idem, detach_not_listening, cc_guard. parallel_counterexample: halves against "
+        "quarters re-trigger (kernel) = known finding C18-parallel-scheduler. Tie A: every statement of Sequencer, "
+        "SequencerObserver.notify, GM names.",
+   note=TRUST + "Partial: that play_Bars is balanced and correctly timed on equal rhythms is decided by the correspondence and the "
+        "oracle, not proved; sleeps are IEEE doubles 60/bpm*4/value, compared with 240/(bpm*value) by the oracle to 1e-9. Known "
+        "finding C18-parallel-scheduler (matcher: a parallel call outside the equal-rhythm/exact-fill domain); one defect "
+        "repaired by a fix: commit (306af39).",
+   design="§4 C18"),
  "C04": dict(
    text="Whole-table kernel evaluation (decide +kernel) of everything the statement says about each of the 30 keys, the 15 "
         "relative couples, the key objects and signature<->key inversion; unbounded theorems for rejections (any string, any "
